@@ -418,7 +418,7 @@ fn random_tree(rng: &mut crate::rng::Rng, ids: &mut Ids, d1: &[(usize, Vec<usize
 
 fn finish(m: &Merged, tier: Tier) -> Finish {
     let mut f = Finish {
-        rule: "every tree is one rule of a ruleset whose five functions t/f/n/v/e (true, false, None, identity, fails) are non-cacheable and log every invocation; every call site carries a unique integer id. The observed log must equal, call by call, the sequence predicted by lazy left-to-right evaluation (reference evaluator), and the reported outcome/error must be the predicted one. Non-trivial = predicted history of length >= 2; distinct by (root kind, predicted history)".into(),
+        rule: "every tree is one rule of a ruleset whose five functions t/f/n/v/e (true, false, None, identity, fails) are non-cacheable and log every invocation; every call site carries a unique integer id. The observed log must equal, call by call, the sequence predicted by lazy left-to-right evaluation (reference evaluator), and the reported outcome/error must be the predicted one. Trees: every operator shape x every leaf kind (depth 1), one composite child in every position (depth 2), random depth 3-4, lazy operators with NaN / 0 / empty string on the left, every strict binary operator with a degenerate constant ([] {} empty-string 0 NaN none ...) on either side, constant failing sub-expressions in unreached positions, repeated cacheable sub-expressions. Non-trivial = predicted history of length >= 2; distinct by (root kind, predicted history)".into(),
         exhaustive: false,
         exhaustive_part: "depth 1 (49 operator shapes — every binary node kind, every one-argument built-in, 2- and 3-entry lists and maps — x all 5^arity leaf assignments) and depth 2 with one composite child in every position are enumerated completely; depth 2 with all children composite and depth 3-4 are seeded random".into(),
         ..Default::default()
